@@ -16,9 +16,12 @@ import (
 // ---- C11: sleeping clients get their traffic buffered and delivered on wake ---------------
 
 type sleepCase struct {
-	Racing bool         `json:"racing"`
-	Cycles int          `json:"cycles"`
-	Script gwsim.Script `json:"script"`
+	// LatePingresp: the PINGRESP for a PINGREQ of the still active client arrives while the gateway
+	// writes its answer to the sleep announcement
+	LatePingresp bool         `json:"late_pingresp,omitempty"`
+	Racing       bool         `json:"racing"`
+	Cycles       int          `json:"cycles"`
+	Script       gwsim.Script `json:"script"`
 }
 
 func tagPayload(k int) []byte { return []byte(fmt.Sprintf("msg-%03d", k)) }
@@ -48,6 +51,15 @@ func genSleep(t *rapid.T) sleepCase {
 	advs := []int{10, 300, 990, 1010, 2500, 4000}
 	for cy := 0; cy < c.Cycles; cy++ {
 		dur := uint16(rapid.SampledFrom([]int{2, 5, 20, 60}).Draw(t, "sleepdur"))
+		if cy == 0 && rapid.IntRange(0, 3).Draw(t, "late_pingresp") == 0 {
+			// the client pings, the broker is slow, the client announces its sleep - and the broker's
+			// PINGRESP arrives while the gateway is writing its answer to that announcement
+			quiet := sc.Auto
+			quiet.BrokerAcks = false
+			add(gwgen.SetAuto(quiet), gwgen.SN(gwgen.Pingreq("")), gwgen.SetAuto(sc.Auto),
+				gwsim.Step{K: "mq-at-snwrite", MQ: &mqttref.Pkt{Type: mqttref.PINGRESP}, D: int64(rapid.SampledFrom([]int{1, 3, 10}).Draw(t, "yield"))})
+			c.LatePingresp = true
+		}
 		add(gwgen.SN(gwgen.Disconnect(dur)))
 		wakes := rapid.IntRange(1, 3).Draw(t, "wakes")
 		for w := 0; w < wakes; w++ {
@@ -115,7 +127,7 @@ func genSleep(t *rapid.T) sleepCase {
 func TestC11(t *testing.T) {
 	vf.Check(t, vf.Prop[sleepCase]{
 		ID: "C11", Name: "sleep-buffering", Bubble: true,
-		Rule: "connected session subscribed to '#'; 1-4 sleep cycles, each DISCONNECT(duration) followed by 1-3 wake-ups (PINGREQ with client ID) and ended by CONNECT (or by the next DISCONNECT(duration)); 0-3 broker publishes (QoS 0/1/2; short, predefined, registered and new topics; uniquely tagged payloads) before each wake-up at drawn offsets around RetryDelay, optionally one, or a burst of 2-8 with the PINGREQ somewhere inside it, at the same instant as the PINGREQ (no settling between the injections), optionally one between PINGRESP and the next wake-up. Non-trivial = at least one publish buffered during sleep; labels separate racing publishes and second-or-later cycles; distinct by script.",
+		Rule: "connected session subscribed to '#'; 1-4 sleep cycles (before the first, in a quarter of the cases, a PINGREQ of the still active client whose PINGRESP the broker sends while the gateway is writing its answer to the sleep announcement), each DISCONNECT(duration) followed by 1-3 wake-ups (PINGREQ with client ID) and ended by CONNECT (or by the next DISCONNECT(duration)); 0-3 broker publishes (QoS 0/1/2; short, predefined, registered and new topics; uniquely tagged payloads) before each wake-up at drawn offsets around RetryDelay, optionally one, or a burst of 2-8 with the PINGREQ somewhere inside it, at the same instant as the PINGREQ (no settling between the injections), optionally one between PINGRESP and the next wake-up. Non-trivial = at least one publish buffered during sleep; labels separate racing publishes and second-or-later cycles; distinct by script.",
 		Assumptions: []string{"client state per doc/specification-interpretation.md: asleep from the gateway's DISCONNECT reply until PINGREQ, awake until the PINGRESP, asleep again until PINGREQ / CONNECT / DISCONNECT",
 			"publishes on topics that need a REGISTER first are only required to be silent during sleep and delivered at most once (their PUBLISH follows the client's REGACK, which the statement does not place)",
 			"which flush a publish racing with the PINGREQ lands in is not constrained; the order among the broker's messages is"},
@@ -145,8 +157,8 @@ func checkSleep(c sleepCase, tr *gwsim.Trace, r *vf.Result) {
 	)
 	st := active
 	connected := false
-	var owed []string                // tags of broker publishes the gateway owes the client, in order (known topics only)
-	loose := map[string]bool{}       // tags on topics needing a REGISTER: at most once
+	var owed []string          // tags of broker publishes the gateway owes the client, in order (known topics only)
+	loose := map[string]bool{} // tags on topics needing a REGISTER: at most once
 	delivered := map[string]int{}
 	racingTags := map[string]bool{}
 	inFlush := map[string]int{} // tag -> number of the flush it was delivered in
